@@ -63,8 +63,13 @@ let case_o id opt tfs trs smps txs obs =
       let rm = resolve tf' tx tr' in
       let tr100 = { tr' with tr_doff = z_of_int 100 } in
       let tb = match enc_trun tr100 with Base.Ok b -> hex_of_bytes b | _ -> "panic" in
-      S.concat "|" [ "o"; tf_string tf'; tr_string tr'; hex_of_bytes (enc_tfhd tf'); tb; tr_string w; samples_string w.tr_samples;
-                     samples_string rs; hn (total_dur rs); samples_string rm; hn (total_dur rm) ] in
+      (* the harness decodes the written trun with DecodeBox / DecodeBoxSR and panics on an error (a hand-set flag word
+         without per-sample fields and more than 1024 samples is refused by the decoder's count guard) *)
+      (match dec_trun (trun_size tr100) (enc_trun_body tr100) with
+       | Base.Ok _ ->
+         S.concat "|" [ "o"; tf_string tf'; tr_string tr'; hex_of_bytes (enc_tfhd tf'); tb; tr_string w; samples_string w.tr_samples;
+                        samples_string rs; hn (total_dur rs); samples_string rm; hn (total_dur rm) ]
+       | _ -> "p") in
   if m = obs then Printf.printf "OK %s\n" id else Printf.printf "MISMATCH %s model=%s\n" id m
 
 
